@@ -328,7 +328,7 @@ Print Assumptions C08_state_after_close_full_refuted.
 
 (* Only the owner connection's close may remove its record.  The forwarding paths (command_forwarder.go, http_proxy.go,
    dns_handler.go) are lookups: under every schedule they leave the store alone (C08_lookups_do_not_disturb_any_schedule) and
-   C08_registration_survives_all_schedules admits no invocation that unregisters the new connection.  A forwarder that
+   C08_registration_survives_all_schedules allows no invocation that unregisters the new connection.  A forwarder that
    "cleans up" the connection it located on its own node is refuted (seeded C08-14; replayed on the real SessionManager by
    the harness event ForwardRacingLogin): *)
 Theorem C08_forwarder_cleanup_refuted : forall cas : bool,
@@ -366,3 +366,13 @@ Theorem C08_state_rebuild_read_then_write_refuted :
                 snd (rrun false false (rs_tombstoned, [REnsure 7 1 10 0; RConnect 7 2 30]) sched) = [RDone; RDone].
 Proof. exact rebuild_read_then_write_refuted. Qed.
 Print Assumptions C08_state_rebuild_read_then_write_refuted.
+
+(* node shutdown (registry emptied first, then the deferred CloseConnection of every connection): the close removes the record
+   whatever the registry says — an instance of C08_lookup_after_close, whose premise speaks of Close events only.  A close that
+   skips the un-registration because the manager no longer holds the connection (seeded C08-23) is refuted: the stopped node's
+   client stays locatable there *)
+Theorem C08_shutdown_close_must_unregister :
+  find current_variant redis_backend (run current_variant redis_backend 300000 init (shutdown_history true)) 2 7 = Absent /\
+  find current_variant redis_backend (run current_variant redis_backend 300000 init (shutdown_history false)) 2 7 = Found 1 10.
+Proof. exact shutdown_close_must_unregister. Qed.
+Print Assumptions C08_shutdown_close_must_unregister.
